@@ -33,6 +33,7 @@ symmetric NATs, mapping timeouts, or introductions handed out by NATed nodes (th
 from __future__ import annotations
 
 import asyncio
+import math
 import itertools
 import random
 
@@ -208,6 +209,11 @@ def simplify(case: dict):  # noqa: ANN201
 
 # ------------------------------------------------------------------------------------------------ overlay
 _OV: list = []
+
+
+def _wall_time() -> float:
+    from ipv8.peerdiscovery import discovery
+    return discovery.time()
 
 
 def overlay_class():  # noqa: ANN201
@@ -460,6 +466,12 @@ def execute(case: dict) -> dict:  # noqa: C901, PLR0912, PLR0915
         groups = [names] if o["concurrent"] else [[n] for n in names]
         for grp in groups:
             last_try = {n: loop.time() for n in grp}
+            idle_ticks = dict.fromkeys(grp, 0)
+            # a tick with an open window and untried addresses goes to the tracker instead with probability (reset_chance+1)/256:
+            # only a run of such ticks that chance explains less than once in 1e9 counts as "stopped" (the ticks are *not*
+            # evenly spaced in simulated time: quiescence after a tick lasts as long as the slowest datagram in flight)
+            p_reset = (int(o["reset_chance"]) + 1) / 256.0
+            need_ticks = max(6, int(math.ceil(math.log(1e-9) / math.log(p_reset))))
             for _tick in range(60):
                 todo = [n for n in grp if available(topo_box[0].nodes[n])]
                 if not todo:
@@ -471,9 +483,16 @@ def execute(case: dict) -> dict:  # noqa: C901, PLR0912, PLR0915
                     world.probe("randomwalk_steps")
                     new = set(walkers[n].intro_timeouts) - before
                     attempted.setdefault(n, set()).update(new)
-                    if new:
+                    rw = walkers[n]
+                    now_n = node.call(_wall_time)
+                    window_full = (len(rw.intro_timeouts) >= rw.window_size
+                                   and all(t0 + rw.node_timeout >= now_n for t0 in rw.intro_timeouts.values()))
+                    if new or window_full:       # a window full of attempts younger than the time-out is not idleness
                         last_try[n] = loop.time()
-                    elif loop.time() - last_try[n] > 15.0 and not retry:
+                        idle_ticks[n] = 0
+                        continue
+                    idle_ticks[n] += 1
+                    if idle_ticks[n] >= need_ticks and loop.time() - last_try[n] > 15.0 and not retry:
                         # the stock walker (window of 5 attempts, each forgotten after 3 s) is ticked twice a second, has walkable
                         # addresses it never tried, and has not made a contact attempt for 15 s: the introduced peer is never contacted
                         c.violate("reachability", "walker_stopped_making_contact_attempts",
